@@ -13,7 +13,7 @@ text that is really there.
   R2  stable alias   a local bound once to `self.<attr>` where <attr> is only ever stored in __init__ is replaced by
                      `self.<attr>`.
   R3  idioms         "{}_{}".format(a, b) -> f"{a}_{b}";  not (a == b) -> a != b (also is / in);
-                     `while True: if C: break; B` -> `while not C: B`;  `if C: pass else: B` -> `if not C: B`;  a local `x: T = E` -> `x = E`;
+                     `while True: if C: break; B` -> `while not C: B`;  `if C: pass else: B` -> `if not C: B`;  a local `x: T = E` -> `x = E`;  set(<generator>) / list(<generator>) -> the comprehension;
                      `await L.acquire(); try: B finally: L.release()` -> `async with L: B` (same for the sync form);
                      `except E as e: if isinstance(e, T): A else: B` -> `except T as e: A  except E as e: B`;
                      `try: A except ..: <always leaves> else: E` -> `try: A except ..` followed by E.
@@ -380,6 +380,10 @@ class _Idioms(ast.NodeTransformer):
         f = node.func
         if isinstance(f, ast.Attribute) and f.attr in ('lower', 'upper') and isinstance(f.value, ast.Constant) and isinstance(f.value.value, str) and not node.args and not node.keywords:
             return _fix(ast.Constant(getattr(f.value.value, f.attr)()), node)
+        if isinstance(f, ast.Name) and f.id in ('set', 'list') and len(node.args) == 1 and not node.keywords and isinstance(node.args[0], ast.GeneratorExp):
+            g = node.args[0]
+            cls = ast.SetComp if f.id == 'set' else ast.ListComp
+            return _fix(cls(elt=g.elt, generators=g.generators), node)
         if isinstance(f, ast.Attribute) and f.attr == 'format' and isinstance(f.value, ast.Constant) and isinstance(f.value.value, str) \
                 and not node.keywords and not any(isinstance(a, ast.Starred) for a in node.args):
             try:
@@ -582,20 +586,36 @@ def _alias_pass(fn, stable):
         if isinstance(n, ast.Name) and isinstance(n.ctx, (ast.Store, ast.Del)):
             counts[n.id] = counts.get(n.id, 0) + 1
     params = {a.arg for a in fn.args.args + fn.args.kwonlyargs + fn.args.posonlyargs}
-    mapping = {}
-    for st in fn.body:      # top level of the function only: the binding dominates every use
-        if isinstance(st, ast.Assign) and len(st.targets) == 1 and isinstance(st.targets[0], ast.Name):
-            v = st.value
-            nm = st.targets[0].id
-            if counts.get(nm) == 1 and nm not in params and isinstance(v, ast.Attribute) and isinstance(v.value, ast.Name) and v.value.id == 'self' and v.attr in stable:
-                mapping[nm] = v
-    if not mapping:
-        return 0
-    # a use before the binding would be an UnboundLocalError in the source: the source is assumed to run
-    fn.body = [st for st in fn.body if not (isinstance(st, ast.Assign) and len(st.targets) == 1 and isinstance(st.targets[0], ast.Name) and st.targets[0].id in mapping)]
-    sub = _Subst(mapping)
-    fn.body = [sub.visit(st) for st in fn.body]
-    return len(mapping)
+    done = [0]
+    def total_loads(name):
+        return sum(1 for n in ast.walk(fn) if isinstance(n, ast.Name) and n.id == name and isinstance(n.ctx, ast.Load))
+    def do_block(stmts):
+        i = 0
+        while i < len(stmts):
+            st = stmts[i]
+            for field in ('body', 'orelse', 'finalbody'):
+                v = getattr(st, field, None)
+                if isinstance(v, list) and v and isinstance(v[0], ast.stmt):
+                    do_block(v)
+            if isinstance(st, ast.Try):
+                for h in st.handlers:
+                    do_block(h.body)
+            if isinstance(st, ast.Assign) and len(st.targets) == 1 and isinstance(st.targets[0], ast.Name):
+                v = st.value
+                nm = st.targets[0].id
+                if counts.get(nm) == 1 and nm not in params and isinstance(v, ast.Attribute) and isinstance(v.value, ast.Name) and v.value.id == 'self' and v.attr in stable:
+                    rest = stmts[i + 1:]
+                    inside = sum(1 for r in rest for n in ast.walk(r) if isinstance(n, ast.Name) and n.id == nm and isinstance(n.ctx, ast.Load))
+                    # every use lies behind the binding in the same block (or nested in it): the binding dominates them
+                    if inside == total_loads(nm):
+                        sub = _Subst({nm: v})
+                        stmts[i + 1:] = [sub.visit(r) for r in rest]
+                        del stmts[i]
+                        done[0] += 1
+                        continue
+            i += 1
+    do_block(fn.body)
+    return done[0]
 
 
 # ------------------------------------------------------------------------------------------------- R6 short-lived attribute alias
